@@ -411,3 +411,88 @@ def _wire():
 
 _wire()
 CONTRACTS = [IdentifierHistories, WorkspaceRegister]
+
+
+class CopyIdentifiersByKind(Contract):
+    """The identifier rule of copies, for every kind of object with its own copy method (surveys copy
+    their partner, drillholes their logs, images go through a temporary grid): into another workspace
+    the copy, each copied child and the copied partner keep the originals' identifiers when those are
+    free there -- and get fresh ones when they are taken (second copy) -- while a copy inside the same
+    workspace gets fresh identifiers throughout; no identifier ever names two live entities."""
+    target = "geoh5py/workspace/workspace.py::Workspace.copy_to_parent"
+    variant = "identifiers-by-kind"
+    symbolic = False
+    has_native = True
+    native_shards = 4
+    props = ("C06",)
+    bounded_scope = "one object per kind in {points, curve, surface, grid2d, geoimage, block model, octree, drillhole, airborne TEM pair, DC/IP pair, tipper pair, group of objects} with data; copy into an empty other workspace, again into the same other workspace, and inside the source workspace (exhaustive over the 12 kinds)"
+
+    def native_cases(self, tier, rng):
+        from contracts.copy_wf import KINDS
+
+        for kind in KINDS:
+            yield {"kind": kind}
+
+    @staticmethod
+    def _family(ent):
+        """the entity, its data children, and its linked partner with its children (name -> uid)"""
+        out = {}
+
+        def add(e, prefix=""):
+            out[prefix + e.name] = e.uid
+            for c in getattr(e, "children", []):
+                if hasattr(c, "uid") and hasattr(c, "name") and hasattr(c, "entity_type"):
+                    if hasattr(c, "children"):
+                        add(c, prefix + e.name + "/")
+                    else:
+                        out[prefix + e.name + "/" + c.name] = c.uid
+
+        add(ent)
+        for attr in ("transmitters", "current_electrodes", "base_stations", "receivers", "potential_electrodes"):
+            try:
+                partner = getattr(ent, attr, None)
+            except Exception:
+                partner = None
+            if partner is not None and partner is not ent and hasattr(partner, "uid"):
+                add(partner, "partner:")
+                break
+        return out
+
+    def native_check(self, case):
+        from contracts.copy_wf import build
+        from geoh5py.workspace import Workspace
+
+        # children a class rebuilds on the copy rather than copying (their identity is the class's own business)
+        rebuilt = ("A-B Cell ID", "Transmitter ID")
+        d = tempfile.mkdtemp()
+        try:
+            with Workspace.create(os.path.join(d, "src.geoh5")) as ws, Workspace.create(os.path.join(d, "dst.geoh5")) as other:
+                obj = build(ws, case["kind"])
+                mine = self._family(obj)
+                first = self._family(obj.copy(parent=other))
+                for name, uid in mine.items():
+                    if any(r in name for r in rebuilt) or name not in first:
+                        continue
+                    if first[name] != uid:
+                        return f"copy of a {case['kind']} into an empty workspace: '{name}' got the fresh identifier {first[name]} although {uid} was free there ({case})"
+                second = self._family(obj.copy(parent=other))
+                clash = set(second.values()) & set(first.values())
+                if clash:
+                    return f"second copy of a {case['kind']} into the same workspace re-uses identifiers that are taken there: {sorted(map(str, clash))[:2]} ({case})"
+                same = self._family(obj.copy())
+                clash = set(same.values()) & set(mine.values())
+                if clash:
+                    return f"copy of a {case['kind']} inside its workspace re-uses identifiers of the originals: {sorted(map(str, clash))[:2]} ({case})"
+                for w in (ws, other):
+                    seen = {}
+                    for e in list(w.objects) + list(w.groups) + list(w.data):
+                        if e.uid in seen and seen[e.uid] is not e:
+                            return f"two live entities share the identifier {e.uid} ({case})"
+                        seen[e.uid] = e
+            return None
+        finally:
+            gc.collect()
+            shutil.rmtree(d, ignore_errors=True)
+
+
+CONTRACTS = CONTRACTS + [CopyIdentifiersByKind]
